@@ -3,6 +3,7 @@ package props
 import (
 	"fmt"
 	"go/ast"
+	"go/constant"
 	"go/types"
 	"strings"
 
@@ -32,6 +33,8 @@ func runC12(c *Ctx) {
 	r.Clause("C12-K7", "a table scan never returns keys of another table: pages are cut by exact table equality")
 	c13TableCut(c, "C12-K7")
 	c12PrefixWithSeparator(c)
+	c12LimitsFitPrefix(c)
+	c12StartKeyIncluded(c)
 	nEnc := 0
 	for _, fn := range c.P.Funcs() {
 		if load.ShortPkg(fn.Pkg.PkgPath) != "rockredis" || fn.Decl.Body == nil {
@@ -337,4 +340,151 @@ func c12PrefixWithSeparator(c *Ctx) {
 			"the prefix is a bare name: keys of every table whose name merely starts with it pass the test")
 	}
 	r.Min("C12-K7", n, 1, "prefix tests against a name-derived prefix in package rockredis")
+}
+
+// c12LimitsFitPrefix: K1's length prefixes are 2 bytes wide (uint16(len(segment))); a segment longer than 65535 bytes wraps
+// the prefix and lands inside another key's range. The limits enforced on keys, sub keys and table names must
+// therefore stay below 65536, and nothing outside tests may raise them at run time.
+func c12LimitsFitPrefix(c *Ctx) {
+	r := c.R
+	n := 0
+	for _, name := range []string{"common.MaxKeySize", "common.MaxSubKeyLen", "rockredis.MaxTableNameLen"} {
+		dot := strings.Index(name, ".")
+		pkgShort, vname := name[:dot], name[dot+1:]
+		found := false
+		for _, pkg := range c.P.Pkgs {
+			if load.ShortPkg(pkg.PkgPath) != pkgShort {
+				continue
+			}
+			for _, f := range pkg.Syntax {
+				for _, d := range f.Decls {
+					gd, ok := d.(*ast.GenDecl)
+					if !ok {
+						continue
+					}
+					for _, sp := range gd.Specs {
+						vs, ok := sp.(*ast.ValueSpec)
+						if !ok {
+							continue
+						}
+						for i, id := range vs.Names {
+							if id.Name != vname || i >= len(vs.Values) {
+								continue
+							}
+							found = true
+							n++
+							tv := pkg.TypesInfo.Types[vs.Values[i]]
+							if tv.Value == nil {
+								r.Unknown("C12-K1", name+" is a constant that fits the 2-byte length prefix", c.P.Pos(id.Pos()), "initialiser is not a constant expression")
+								continue
+							}
+							v, _ := constant.Int64Val(tv.Value)
+							r.Check("C12-K1", name+" fits the 2-byte length prefix of the key encoders (< 65536)", c.P.Pos(id.Pos()), v > 0 && v < 65536, fmt.Sprintf("value %d", v))
+						}
+					}
+				}
+			}
+		}
+		if !found {
+			r.Unknown("C12-K1", name, "", "declaration not found")
+		}
+		// no run-time writer outside tests
+		for _, fn := range c.P.Funcs() {
+			if fn.Decl.Body == nil || strings.HasSuffix(c.P.Fset.Position(fn.Decl.Pos()).Filename, "_test.go") {
+				continue
+			}
+			hit := false
+			ast.Inspect(fn.Decl.Body, func(nd ast.Node) bool {
+				as, ok := nd.(*ast.AssignStmt)
+				if !ok {
+					return true
+				}
+				for _, l := range as.Lhs {
+					var o types.Object
+					switch x := ast.Unparen(l).(type) {
+					case *ast.Ident:
+						o = fn.Pkg.TypesInfo.ObjectOf(x)
+					case *ast.SelectorExpr:
+						o = fn.Pkg.TypesInfo.ObjectOf(x.Sel)
+					}
+					if o != nil && o.Pkg() != nil && o.Parent() == o.Pkg().Scope() && o.Name() == vname && load.ShortPkg(o.Pkg().Path()) == pkgShort {
+						hit = true
+					}
+				}
+				return true
+			})
+			if hit {
+				r.Bad("C12-K1", name+" is not changed at run time", c.P.Pos(fn.Decl.Pos()), fn.Name+" assigns it")
+			}
+		}
+	}
+	r.Min("C12-K1", n, 3, "size limits behind the length prefixes")
+	// the rockredis aliases are the common limits
+	for _, al := range [][2]string{{"MaxKeySize", "common.MaxKeySize"}, {"MaxSubKeyLen", "common.MaxSubKeyLen"}} {
+		for _, pkg := range c.P.Pkgs {
+			if load.ShortPkg(pkg.PkgPath) != "rockredis" {
+				continue
+			}
+			for _, f := range pkg.Syntax {
+				ast.Inspect(f, func(nd ast.Node) bool {
+					vs, ok := nd.(*ast.ValueSpec)
+					if !ok {
+						return true
+					}
+					for i, id := range vs.Names {
+						if id.Name == al[0] && i < len(vs.Values) {
+							r.Check("C12-K1", "rockredis."+al[0]+" is the common limit", c.P.Pos(id.Pos()), types.ExprString(vs.Values[i]) == al[1], types.ExprString(vs.Values[i]))
+						}
+					}
+					return true
+				})
+			}
+		}
+	}
+}
+
+// c12StartKeyIncluded: the start key of a collection's element range is itself a legal element key (the field / member
+// with the empty name). An iteration over the whole collection built from the Start/Stop encoder pair must therefore
+// be closed on the left: a left-open range skips that element (it survives a clear and reappears when the key is
+// re-created).
+func c12StartKeyIncluded(c *Ctx) {
+	r := c.R
+	n := 0
+	lopen := atoi(c.W.Const("common.RangeLOpen"))
+	for _, cs := range c.W.AllSites(an.Call("rockredis.(*RockDB).NewDBRangeIterator", "rockredis.(*RockDB).NewDBRangeLimitIterator"), "", []string{"rockredis"}) {
+		u := cs.U
+		if strings.HasSuffix(c.P.Fset.Position(cs.S.Pos).Filename, "_test.go") || len(cs.S.Call.Args) < 3 {
+			continue
+		}
+		// the two ends of one collection's element range: the precomputed RangeStart/RangeEnd of a key info object,
+		// or the Start/Stop pair of an element encoder (not the table / index / meta ranges, whose start key is a bare
+		// prefix that no record can have)
+		what := ""
+		da, db := defExpr(u, cs.S.Call.Args[0]), defExpr(u, cs.S.Call.Args[1])
+		if xa, ok := da.(*ast.SelectorExpr); ok {
+			if xb, ok := db.(*ast.SelectorExpr); ok && xa.Sel.Name == "RangeStart" && xb.Sel.Name == "RangeEnd" && u.C.Term(xa.X) == u.C.Term(xb.X) {
+				what = u.C.Term(xa.X) + ".RangeStart, .RangeEnd"
+			}
+		}
+		if what == "" {
+			a, b := defCall(u, cs.S.Call.Args[0]), defCall(u, cs.S.Call.Args[1])
+			if a == nil || b == nil || !pairNames(an.CalleeName(a), an.CalleeName(b)) {
+				continue
+			}
+			na := shortName(an.CalleeName(a))
+			if strings.Contains(na, "Table") || strings.Contains(na, "Index") || strings.Contains(na, "Meta") {
+				continue
+			}
+			what = na + ", " + shortName(an.CalleeName(b))
+		}
+		tv := u.Info().Types[cs.S.Call.Args[2]]
+		construct := fmt.Sprintf("%s: iteration over [%s) includes the start key", u.Name, what)
+		if tv.Value == nil {
+			continue // a range type computed from the client's bounds (ZRANGEBYLEX ...): not a whole-collection walk
+		}
+		n++
+		v, _ := constant.Int64Val(tv.Value)
+		r.Check("C12-K2", construct, u.Pos(cs.S.Pos), int(v)&lopen == 0, "range type "+u.C.Term(cs.S.Call.Args[2])+" is open on the left: the element whose name is empty is skipped")
+	}
+	r.Min("C12-K2", n, 5, "whole-collection iterations")
 }
